@@ -357,3 +357,75 @@ func realCancelledCalls() {
 		return true
 	})
 }
+
+// realMuteUnbounded: DoQ and DoH (h2, h3) upstreams against servers that
+// complete every handshake, read the query and never answer, with an UNBOUNDED
+// caller context: only the upstream's own per-query timeouts can end the call.
+func realMuteUnbounded() {
+	pki, err := loopnet.NewPKI([]net.IP{net.ParseIP("127.0.0.1")}, []string{"localhost"})
+	if err != nil {
+		rep.Inconclusive("real-mute: pki: %v", err)
+		return
+	}
+	mute := func(q []byte, proto string, connID int, reply func([]byte)) {}
+	cases := []struct {
+		name  string
+		serve func() (*loopnet.Server, error)
+	}{
+		{"quic", func() (*loopnet.Server, error) { return loopnet.ServeDoQ(pki, mute) }},
+		{"https", func() (*loopnet.Server, error) { return loopnet.ServeDoH(pki, mute) }},
+		{"h3", func() (*loopnet.Server, error) { return loopnet.ServeDoH3(pki, mute) }},
+	}
+	var wg sync.WaitGroup
+	for _, c := range cases {
+		wg.Add(1)
+		go func(name string, serve func() (*loopnet.Server, error)) {
+			defer wg.Done()
+			srv, err := serve()
+			if err != nil {
+				rep.Inconclusive("real-mute %s: cannot start server: %v", name, err)
+				return
+			}
+			defer srv.Close()
+			u, err := upstream.NewUpstream(srv.URL(false), upstream.Opt{TLSConfig: &tls.Config{RootCAs: pki.Pool}})
+			if err != nil {
+				rep.Inconclusive("real-mute %s: NewUpstream: %v", name, err)
+				return
+			}
+			caselog.Log(map[string]any{"real_mute_unbounded": name})
+			rep.Eval(1)
+			seq := int(seqCtr.Add(1))
+			done := make(chan error, 1)
+			t0 := time.Now()
+			go func() {
+				r, err := u.ExchangeContext(context.Background(), dnsadv.Query(uint16(seq), seq, 1, "c07", 1))
+				if err == nil {
+					pool.ReleaseBuf(r)
+				}
+				done <- err
+			}()
+			wit := map[string]any{"scheme": name, "server": srv.Addr}
+			select {
+			case err := <-done:
+				rep.Max("real_mute_unbounded_return_ms:"+name, time.Since(t0).Milliseconds())
+				if err == nil {
+					rep.Violation("reply-from-nowhere-real-"+name, "exchange against a server that never answers returned success", wit)
+				} else {
+					rep.Count("real_mute_unbounded_calls_returned_with_error", 1)
+					rep.Nontrivial("real-mute-unbounded|" + name)
+				}
+			case <-time.After(wSilence):
+				wit["goroutines"] = trunc(leak.Full(), 60000)
+				rep.Violation("call-did-not-return-real-"+name+"-silent-peer", fmt.Sprintf("exchange with an unbounded context against a %s server that reads the query and never answers still blocked after %.0f s", name, wSilence.Seconds()), wit)
+			}
+			closed := make(chan struct{})
+			go func() { u.Close(); close(closed) }()
+			select {
+			case <-closed:
+			case <-time.After(wCtx):
+				rep.Violation("close-did-not-return-real-"+name, "upstream Close() still blocked after 10 s", wit)
+			}
+		}(c.name, c.serve)
+	}
+	wg.Wait()
+}
